@@ -1163,7 +1163,8 @@ impl World for Own {
         for signer in MSIGNERS {
             v.push(OOp::Increment { signer });
         }
-        for new in [Who::A, Who::B] {
+        // incl. an offer of the owner to itself (must not open a way back after a renouncement)
+        for new in [Who::A, Who::B, Who::Adm] {
             for signer in MSIGNERS {
                 v.push(OOp::Transfer { new, signer });
             }
